@@ -244,7 +244,7 @@ def extra_fuzz(nq, nt):
         n = nq if tier == 'quick' else nt
         os.makedirs(f'{vlib.WORK}/fuzz', exist_ok=True)
         corpus = f'{vlib.WORK}/fuzz/corpus.txt'
-        files = sorted(glob.glob('/repo/derive-ex-tests/tests/*.rs')) + ['/repo/doc/derive_ex.md', '/repo/README.md']
+        files = sorted(glob.glob(f'{vlib.REPO}/derive-ex-tests/tests/*.rs')) + [f'{vlib.REPO}/doc/derive_ex.md', f'{vlib.REPO}/README.md']
         r = subprocess.run([vlib.XCHECK, 'corpus'] + files, capture_output=True, text=True)
         lines = r.stdout.splitlines()
         # generator output as additional seeds
@@ -381,7 +381,7 @@ PROPS = {
     'C05': dict(
         theorems=[('DeriveExModel.Props.Tables', ['DX.isMatch_table_model', 'DX.isMatch_table_doc', 'DX.isMatch_table_complete']), (CMP + 'C05', ['DX.field_error_iff_misuse', 'DX.trait_error_iff_misuse', 'DX.valid_use_accepted',
                                  'DX.misplaced_iff', 'DX.struct_entries_isolated'])],
-        l1=[('cmp1', 'all', 'all'), ('cmp1all', 20000, 'all'), ('cmpWild', 3000, 100000)],
+        l1=[('cmp1', 'all', 'all'), ('cmp1all', 20000, 'all'), ('cmpWild', 4000, 100000), ('cmpN', 2000, 50000)],
         labels=r':(PartialEq|PartialOrd|Ord|Eq|Hash)$|^err$',
         kinds=('class', 'count', 'panic', 'nondet', 'parse'),
         l1_is_concrete=('class',),
@@ -477,7 +477,7 @@ PROPS.update({
                                  'DX.reemit_on_arg_error_struct', 'DX.reemit_on_arg_error_enum', 'DX.reemit_impl',
                                  'DX.reemit_other', 'DX.item_always_emitted', 'DX.foreign_kept', 'DX.strip_is_sublist',
                                  'DX.underived_helper_kept'])],
-        l1=[('strip', 5000, 200000), ('wild', 2000, 50000), ('impl', 1500, 30000), ('cmp1all', 10000, 'all')],
+        l1=[('strip', 5000, 200000), ('wild', 2000, 50000), ('impl', 1500, 30000), ('other', 500, 5000), ('cmp1all', 10000, 'all')],
         labels=r'^item$',
         l1_is_concrete=('tokens', 'class'),
         l1_concrete_text='the re-emitted item differs from the input minus the documented derive_ex-owned attributes (the model, proved equal to docStrip*)',
@@ -492,7 +492,7 @@ PROPS.update({
     'C16': dict(
         theorems=[('DeriveExModel.Props.Tables', ['DX.trait_table_model', 'DX.trait_table_complete']), (CMP + 'C16', ['DX.output_shape', 'DX.attr_output_nonempty', 'DX.derive_rejects_with_one_error',
                                  'DX.core_error_single', 'DX.deterministic'])],
-        l1=[('wild', 5000, 200000), ('strip', 2000, 50000), ('impl', 2000, 50000), ('cmpWild', 2000, 50000)],
+        l1=[('wild', 5000, 200000), ('strip', 2000, 50000), ('impl', 2000, 50000), ('cmpWild', 2000, 50000), ('other', 500, 5000)],
         labels=r'.',
         kinds=('panic', 'nondet', 'parse', 'roundtrip'),
         extra=extra_fuzz(160000, 8000000),
